@@ -148,7 +148,18 @@ def eval_allpairs(case):
     t = v.base_str
     per = per_char(v)
     L = len(t)
-    rng = [None] + list(range(-L - 2, L + 3))
+    if L <= 20:
+        rng = [None] + list(range(-L - 2, L + 3))
+    else:
+        # long values: every bound on or next to a change point, the ends, and every 7th position (both signs)
+        pts = set([0, 1, L - 1, L, L + 2])
+        for i in range(1, L):
+            if per[i] != per[i - 1]:
+                pts.update([i - 1, i, i + 1])
+        pts.update(range(0, L, 7))
+        pts = sorted(x for x in pts if 0 <= x <= L + 2)[:40]
+        rng = [None] + pts + [x - L for x in pts if x - L < 0] + [-L - 2]
+        o.label('long-value')
     n = 0
     for a in rng:
         for b in rng:
